@@ -121,8 +121,18 @@ func checksumOf(c xzCfg) int {
 
 // runXzCase runs one writer case through every oracle. prop selects which oracles raise
 // violations for the property being checked ("C01" or "C02"); correspondence breaks count for both.
+// caseData: "@opsfit:<filler>" denotes the generated input of harness/opsfit_gen.go
+func caseData(s string) []byte {
+	var f int
+	if n, _ := fmt.Sscanf(s, "@opsfit:%d", &f); n == 1 {
+		d, _ := opsfitGenerate(opsfitParams{Seed: 1, Filler: f, Tail: 1000})
+		return d
+	}
+	return unhxe(s)
+}
+
 func runXzCase(r *Result, dp *DriverPool, prop string, cs xzCase, sizes []int64) {
-	data := unhxe(cs.Data)
+	data := caseData(cs.Data)
 	c := cs.Cfg
 	viol := func(kind, sig, note string) {
 		r.Violate(kind, sig, cs, note)
@@ -321,6 +331,18 @@ func checkXzWriter(prop string) func(a *checkArgs, r *Result) error {
 		noise := genRandom(rand.New(rand.NewSource(9)), 140000)
 		cases = append(cases, xzCase{Op: "xzwrite", Name: "corpus/raw-raw-compressed", Cfg: xzCfg{LC: 3, PB: 2, DictCap: 1 << 20, BufSize: 4096},
 			Data: hxe(append(append([]byte{}, noise...), genText(rng, 30000)...)), Parts: []int{170000}})
+		// F17: one far match costing 17-18 range-coder bytes where the compressed chunk is nearly full
+		fillers := []int{93912, 93918, 93924}
+		if a.tier == "thorough" {
+			fillers = nil
+			for f := 93880; f <= 93950; f += 2 {
+				fillers = append(fillers, f)
+			}
+		}
+		for _, f := range fillers {
+			cases = append(cases, xzCase{Op: "xzwrite", Name: fmt.Sprintf("corpus/opsfit filler=%d", f), Cfg: xzCfg{LC: 3, PB: 2, DictCap: 8 << 20, BufSize: 4096},
+				Data: fmt.Sprintf("@opsfit:%d", f), Parts: []int{len(caseData(fmt.Sprintf("@opsfit:%d", f)))}})
+		}
 		for i := 0; i < big*2; i++ { // regime switches: several raw chunks, then compressible data, and back
 			var d []byte
 			for k := 0; k < 2+rng.Intn(3); k++ {
